@@ -306,15 +306,21 @@ def error_discipline(chk, w, rule, fns, floor, extra_ok=()):
                 for e in evs:
                     if any(a == absint.SYM("ret:%d" % bb) or (a[0] == "var" and a[3] is not None and len(a[3]) == 2 and a[3][0] == "symp" and a[3][1] == "ret:%d" % bb) for a in e[3]):
                         cn = (e[2] or "").split("::")[-1]
-                        if cn in ("unwrap", "expect", "ok", "unwrap_or", "unwrap_or_default", "unwrap_or_else", "is_ok", "is_err", "unwrap_unchecked", "err"):
+                        if cn in ("unwrap", "expect", "ok", "unwrap_or", "unwrap_or_default", "unwrap_or_else", "unwrap_unchecked", "err"):
                             consumed_bad.append((e[1], cn))
                 if rcls == "Err" and o.kind == "return":
                     fr = effects.ret_class(o.value_at((("L", 0),)))
                     if fr != "Err":
                         dropped_ok.append(o)
                 if rcls == "any" and o.kind == "return":
-                    # never inspected on this path
-                    if not any(any(a == absint.SYM("ret:%d" % bb) for a in e[3]) for e in evs):
+                    # never inspected on this path (by value, or through a reference as in `.is_ok()`)
+                    def mentions(a):
+                        if a == absint.SYM("ret:%d" % bb):
+                            return True
+                        if a[0] == "ref":
+                            return it._read(o, a[1]) == absint.SYM("ret:%d" % bb)
+                        return False
+                    if not any(any(mentions(a) for a in e[3]) for e in evs):
                         dropped_ok.append(o)
             ok = not dropped_ok and not consumed_bad
             why = ""
